@@ -15,7 +15,13 @@ def query_pool():
 
 
 def n_sources():
-    return len([f for f in os.listdir(C.CORPUS_PY) if f.endswith(".py")])
+    """number of ordinary sources (the big ones, named *_many*, sort last and are only used by targeted cases)"""
+    return len([f for f in os.listdir(C.CORPUS_PY) if f.endswith(".py") and "_many" not in f])
+
+
+def big_source():
+    names = source_names()
+    return 1 + next(i for i, n in enumerate(names) if "_many" in n)
 
 
 def source_names():
